@@ -10,6 +10,7 @@ package main
 
 import (
 	"bytes"
+	"encoding/json"
 	"encoding/hex"
 	"fmt"
 	"strings"
@@ -562,10 +563,13 @@ func c30RTPChild(in c30RTPIn) (V, Verdict) {
 	return obs, Pass(fmt.Sprintf("rtp:%s/parsed:%v", in.Origin, okU), okU)
 }
 
+var c30ChildRun = map[string]func(raw json.RawMessage) (V, Verdict){
+	"sdp":  c30ChildHandler(c30SDPChild),
+	"cand": c30ChildHandler(c30CandChild),
+	"rtp":  c30ChildHandler(c30RTPChild),
+}
+
 func init() {
-	c30RegisterChild("sdp", c30SDPChild)
-	c30RegisterChild("cand", c30CandChild)
-	c30RegisterChild("rtp", c30RTPChild)
 
 	Register(Spec[c30SDPIn]{
 		ID: "C30", Suite: "sdp", Quick: 2400, Thorough: 100000, Parallel: 8,
